@@ -228,7 +228,7 @@ def ctx3_specs(kmode, tier, terminals, trivs=("none",), sigma="abA", L=3):
 def c01_bounds(tier: str, lean: bool = False):
     b = C01_BOUNDS[tier]
     if lean and tier == "quick":
-        b = dict(b, top=[(n, (("",) if n >= 3 else m), (("none",) if n >= 3 else t)) for n, m, t in b["top"]], ctx=[(h, ("none",)) for h, t in b["ctx"]])
+        b = dict(b, top=[(n, (("",) if n >= 3 else m), (("none",) if n >= 3 else t)) for n, m, t in b["top"]], ctx=[(h, ("none",)) for h, t in b["ctx"]], ctx_stack_under=["ws"])
     return b
 
 
@@ -242,8 +242,8 @@ def length_for(alphabet: str, max_inputs: int) -> int:
 
 def c01_specs(tier: str, kmode: str = "zero", terminals=T_FULL, soi_free: bool = False, extra_sigma: str = "", max_inputs: int | None = None, extra_trivia=(), sigma_core: str | None = None,
               lean: bool = False, ctx2_trivia=()):
-    """lean (quick tier of the checks that multiply the work by every start position): the n<=3 row with normal rules and no trivia only,
-    contexts without trivia only."""
+    """lean (quick tier of the checks that multiply the work): the n<=3 row with normal rules and no trivia only, contexts without trivia
+    only - except the stack contexts, which also run under WHITESPACE."""
     b = c01_bounds(tier, lean)
     if extra_trivia:
         n0, mods0, trivs0 = b["top"][0]
@@ -282,6 +282,22 @@ def c01_specs(tier: str, kmode: str = "zero", terminals=T_FULL, soi_free: bool =
                         continue  # e.g. a repetition context around a nullable hole
                     starts.append((extra, start))
                 out.extend(batch_specs(starts, TRIVIA[tv] + HELPERS, ins, kmode, f"ctx({cname},hole<={hole_n},{tv})"))
+    if lean and tier == "quick":
+        # lean drops the contexts under trivia - except the stack contexts: a trivia attempt is a nested checkpoint that pops nothing,
+        # which is exactly what snapshot bookkeeping gets wrong
+        tv = "ws"
+        sigma = (sigma_core or SIGMA_CORE) + TRIVIA_SIGMA[tv] + extra_sigma
+        ins = inputs(sigma, length_for(sigma, mi))
+        for cname, f in ctxs.items():
+            if "push" not in cname:
+                continue
+            starts = []
+            for i, h in enumerate(bodies(2)):
+                extra, start = f(h, i)
+                rules = TRIVIA[tv] + HELPERS + tuple(extra) + (("x", start[0], start[1]),)
+                if gast.well_formed(rules):
+                    starts.append((extra, start))
+            out.extend(batch_specs(starts, TRIVIA[tv] + HELPERS, ins, kmode, f"ctx({cname},hole<=2,{tv})"))
     names = CTX2_LEAN if (lean and tier == "quick") else (CTX2_QUICK if tier == "quick" else None)
     out.extend(ctx2_specs(kmode, tier, terminals, (("none",) if tier == "quick" else ("none", "ws")) + tuple(ctx2_trivia), names, (sigma_core or SIGMA_CORE), extra_sigma, min(mi, 45)))
     return out + extra_specs(kmode, tier)
